@@ -88,7 +88,7 @@ def run(tier, seed):
             {"srv": {"kind": "FastPath", "shape": [{"t": "Bitmap", "n": 3, "dlen": 5}, {"t": "Other", "code": 9}, {"t": "Bitmap", "n": 1, "dlen": 3}], "long": False}}]})
         pp = os.path.join(wd, "plans.ndjson")
         activation.write_plans(pp, plans)
-        trace, blobs, decoded, dec = activation.run_and_decode(wd, pp, seed)
+        trace, blobs, decoded, dec = activation.run_and_decode(wd, pp, seed, v=v, key="fastpath:abort")
         activation.check_server_blobs(blobs, dec)
         accepted, rejects = core.tv_all("Trace_Activation", trace, decoded, wd, shards=8)
         activation.report_rejects(v, rejects, "fastpath")
